@@ -22,6 +22,9 @@ type TCmd struct {
 	Long      string   `json:"long"`
 	Desc      string   `json:"desc"`
 	HasAction bool     `json:"has_action"`
+	// PolicyPlus1: 0 = the command does not set ErrorHandling (it inherits its parent's at declaration time),
+	// otherwise policy+1 is assigned at the start of the command's initializer, before its sub commands are declared
+	PolicyPlus1 int `json:"policy_plus1,omitempty"`
 }
 
 // Policies.
@@ -46,6 +49,25 @@ type TreeCase struct {
 	Version string     `json:"version,omitempty"`
 	// HelpLevel/HelpPos: where a help token was inserted (-1 = none); informational, the oracle re-derives it.
 	HelpLevel int `json:"help_level"`
+	// Warmup, when non-nil, is a first argument vector given to the SAME application object before Argv()
+	// (only help requests are generated: they leave no values behind)
+	Warmup []string `json:"warmup,omitempty"`
+
+	forceContinue bool
+}
+
+// EffPolicy is the error policy in force at level l of the path.
+func (c *TreeCase) EffPolicy(l int) int {
+	p := c.Policy
+	for _, cmd := range c.PathCmds()[:l+1] {
+		if cmd.PolicyPlus1 > 0 {
+			p = cmd.PolicyPlus1 - 1
+		}
+	}
+	if c.forceContinue {
+		return PolContinue
+	}
+	return p
 }
 
 // Argv assembles the argument vector.
@@ -146,10 +168,14 @@ type TreeOutcome struct {
 }
 
 type treeDecl struct {
-	holders map[string][]Holder
+	holders       map[string][]Holder
+	forceContinue bool
 }
 
 func declareTree(c *cli.Cmd, t *TCmd, path string, out *TreeOutcome, td *treeDecl, chain []string) {
+	if t.PolicyPlus1 > 0 && !td.forceContinue {
+		c.ErrorHandling = policies[t.PolicyPlus1-1]
+	}
 	var hs []Holder
 	for i, o := range t.D.Opts {
 		set := new(bool)
@@ -206,24 +232,49 @@ const VersionString = "9.8.7-qver"
 func RunTree(c *TreeCase) TreeOutcome {
 	var out TreeOutcome
 	out.Binds = map[string]map[string][]string{}
-	WithSwap(&out.Outcome, func() { RunTreeInner(&out, c) })
+	var app *cli.Cli
+	if c.Warmup != nil {
+		// a first (help) request on the same application object; its output and ending are not part of the case
+		var w Outcome
+		WithSwap(&w, func() {
+			app = buildTreeApp(&out, c)
+			_ = app.Run(append([]string{"app"}, c.Warmup...))
+		})
+		out.Log = nil
+		out.Binds = map[string]map[string][]string{}
+	}
+	WithSwap(&out.Outcome, func() {
+		if app == nil {
+			app = buildTreeApp(&out, c)
+		}
+		runTreeApp(&out, app, c)
+	})
 	return out
 }
 
-// RunTreeInner is RunTree without touching the package level streams.
+// RunTreeInner is RunTree without touching the package level streams (no warm-up run).
 func RunTreeInner(out *TreeOutcome, c *TreeCase) {
-	{
-		app := cli.App("app", c.Root.Desc)
-		app.ErrorHandling = policies[c.Policy]
-		if c.Version != "" {
-			app.Version("V qversion", VersionString)
-		}
-		td := &treeDecl{holders: map[string][]Holder{}}
-		declareTree(app.Cmd, c.Root, "app", out, td, nil)
-		err := app.Run(append([]string{"app"}, c.Argv()...))
-		if err != nil {
-			out.HasErr, out.Err = true, err.Error()
-		}
+	runTreeApp(out, buildTreeApp(out, c), c)
+}
+
+func buildTreeApp(out *TreeOutcome, c *TreeCase) *cli.Cli {
+	app := cli.App("app", c.Root.Desc)
+	app.ErrorHandling = policies[c.Policy]
+	if c.forceContinue {
+		app.ErrorHandling = policies[PolContinue]
+	}
+	if c.Version != "" {
+		app.Version("V qversion", VersionString)
+	}
+	td := &treeDecl{holders: map[string][]Holder{}, forceContinue: c.forceContinue}
+	declareTree(app.Cmd, c.Root, "app", out, td, nil)
+	return app
+}
+
+func runTreeApp(out *TreeOutcome, app *cli.Cli, c *TreeCase) {
+	err := app.Run(append([]string{"app"}, c.Argv()...))
+	if err != nil {
+		out.HasErr, out.Err = true, err.Error()
 	}
 }
 
@@ -351,9 +402,14 @@ func CheckTree(prop string, c *TreeCase, st *Stats) *Violation {
 	End()
 	argv := c.Argv()
 	cmds := c.PathCmds()
-	ctx := fmt.Sprintf("policy=%v argv=%q", policies[c.Policy], argv)
+	ctx := fmt.Sprintf("policy=%v%s argv=%q", policies[c.Policy], subPolicies(c), argv)
+	if c.Warmup != nil {
+		ctx += fmt.Sprintf(" (second run on the same application object, after %q)", c.Warmup)
+		st.Class("sequence:second-run-on-same-app")
+	}
+	pol := c.Policy
 	exitOK := func(code int) *Violation {
-		switch c.Policy {
+		switch pol {
 		case PolExit:
 			if out.Exit == nil || *out.Exit != code || out.Exits != 1 {
 				return Violf("expected exit(%d) exactly once, got exit=%v x%d panic=%q err=%q; %s", code, fmtExit(out.Exit), out.Exits, out.Panic, out.Err, ctx)
@@ -383,6 +439,7 @@ func CheckTree(prop string, c *TreeCase, st *Stats) *Violation {
 		st.NonTrivial("version\x00"+strings.Join(argv, "\x01")+fmt.Sprint(c.Policy), func() interface{} { return map[string]interface{}{"argv": argv, "policy": c.Policy, "kind": "version"} })
 		return nil
 	case e.HelpAt >= 0:
+		pol = c.EffPolicy(e.HelpAt)
 		st.Class("kind:help")
 		if len(out.Log) != 0 {
 			return Violf("help request ran hooks %v; %s", out.Log, ctx)
@@ -420,6 +477,10 @@ func CheckTree(prop string, c *TreeCase, st *Stats) *Violation {
 		}
 		return nil
 	case e.RejectAt >= 0:
+		pol = c.EffPolicy(e.RejectAt)
+		if pol != c.Policy {
+			st.Class("reject:under-a-policy-set-on-a-subcommand")
+		}
 		st.Class("kind:reject")
 		if c.HelpLevel >= 0 {
 			st.Class("help:token-after-dd-is-data")
@@ -433,7 +494,7 @@ func CheckTree(prop string, c *TreeCase, st *Stats) *Violation {
 		if !containsUsage(out.Stderr, c.FullPath(e.RejectAt)) {
 			return Violf("rejected at level %d: 'Usage: %s' missing from the error stream %q; %s", e.RejectAt, c.FullPath(e.RejectAt), normWS(out.Stderr), ctx)
 		}
-		switch c.Policy {
+		switch pol {
 		case PolContinue:
 			if !out.HasErr || out.Exit != nil || out.Panic != "" {
 				return Violf("ContinueOnError: expected a returned error, got err=%q exit=%v panic=%q; %s", out.Err, fmtExit(out.Exit), out.Panic, ctx)
@@ -457,13 +518,13 @@ func CheckTree(prop string, c *TreeCase, st *Stats) *Violation {
 				return Violf("PanicOnError: the error stream %q lacks the error text %q; %s", out.Stderr, perr.Error(), ctx)
 			}
 		}
-		if c.Policy != PolContinue {
+		if pol != PolContinue {
 			// the error stream must not depend on the policy
 			c2 := *c
-			c2.Policy = PolContinue
+			c2.forceContinue = true
 			ref := RunTree(&c2)
 			if ref.Stderr != out.Stderr {
-				return Violf("error stream differs between ContinueOnError (%q) and %v (%q); %s", ref.Stderr, policies[c.Policy], out.Stderr, ctx)
+				return Violf("error stream differs between ContinueOnError (%q) and %v (%q); %s", ref.Stderr, policies[pol], out.Stderr, ctx)
 			}
 		}
 		if e.RejectAt >= 1 || e.Conversion {
@@ -534,6 +595,19 @@ func CheckTree(prop string, c *TreeCase, st *Stats) *Violation {
 	return nil
 }
 
+func subPolicies(c *TreeCase) string {
+	s := ""
+	for l, cmd := range c.PathCmds() {
+		if cmd.PolicyPlus1 > 0 {
+			s += fmt.Sprintf(" level%d=%v", l, policies[cmd.PolicyPlus1-1])
+		}
+	}
+	if s != "" {
+		s = " (set in sub command initializers:" + s + ")"
+	}
+	return s
+}
+
 func fmtExit(e *int) string {
 	if e == nil {
 		return "none"
@@ -549,6 +623,8 @@ type TreeGenMode struct {
 	Version  int // chance in 16 of a version request
 	Mutate   int // chance in 8 of mutating a level's tokens
 	Policies bool
+	SubPol   int // chance in 8 that a sub command sets its own policy
+	Warmup   int // chance in 8 of a first help request on the same application object
 }
 
 // GenTreeCase draws a tree, a path and per-level tokens.
@@ -587,8 +663,21 @@ func GenTreeCase(t *rapid.T, mode TreeGenMode) *TreeCase {
 		c.Path = append(c.Path, i)
 		c.Alias = append(c.Alias, intn(t, 3, "alias"))
 		cur = cur.Subs[i]
+		if mode.Policies && chance(t, mode.SubPol, 8, "subpol") {
+			cur.PolicyPlus1 = 1 + intn(t, 3, "subpolicy")
+		}
 	}
 	cur.HasAction = cur.HasAction || !chance(t, 1, 10, "leafnoaction")
+	if chance(t, mode.Warmup, 8, "warmup") {
+		// a help request for a random command of the tree (not necessarily on the path)
+		w := []string{}
+		wc := root
+		for len(wc.Subs) > 0 && chance(t, 2, 3, "wdeeper") {
+			wc = wc.Subs[intn(t, len(wc.Subs), "wsub")]
+			w = append(w, wc.Aliases[intn(t, len(wc.Aliases), "walias")])
+		}
+		c.Warmup = append(w, rapid.SampledFrom([]string{"-h", "--help"}).Draw(t, "whelp"))
+	}
 	if chance(t, mode.Help, 8, "help") {
 		l := intn(t, len(c.Levels), "helplevel")
 		lt := c.Levels[l]
